@@ -35,6 +35,8 @@ def check(ctx, names, label):
         r = meta[x["id"]]
         site_src = "|".join(f"{s['dim']}D:{''.join(s['sys'])}:{'momentum' if s['momentum'] else 'generic'}" for s in r["srcs"])
         inp = {"program": x["text"], "operands": probes[x["id"]]["vecs"], "scalars": nbprobe.scalar_values(r["name"])}
+        if x["status"] == "singular":
+            continue
         if x["status"] in ("mismatch", "nb_error") or (x.get("nb") or {}).get("cls") != (x.get("py") or {}).get("cls"):
             ctx.fail(f"compiled:{r['name']}:{C07.classify(r)}", f"numba-compiled {x['text']} on {site_src} returns {x.get('nb')}, the interpreter {x.get('py')}", inp)
         else:
